@@ -159,7 +159,7 @@ def run(repo):
             res.fail(Finding(RULE, fi.fq, 'random coefficients in the stationarity rows',
                              'le_to_rc: `%s` %s; for a variable of the set whose upper bound is 0 the dual construction '
                              'stores -1 there, so the counterpart would protect against the mirrored variable'
-                             % (ntext(n)[:60], pr), repo.where(fi, n), P))
+                             % (ntext(n)[:60], pr), repo.where(fi, n), {'props': ['C01', 'C03', 'C15']}))
     if n_terms < 1:
         raise AnalysisError('le_to_rc: the term adding self.raffine to the stationarity rows was not found')
     if n_blocks < 2:
